@@ -55,6 +55,14 @@ class Ctx(object):
     return False
 
   def calls_function(self, call, fn, modname, qualname):
+    last = qualname.split('.')[-1]
+    f = call.func
+    called = f.attr if isinstance(f, ast.Attribute) else getattr(f, 'id', None)
+    if called != last:
+      # an ``import x as y`` alias of a function would be missed; carbon has none for the functions rules ask about
+      imp = fn.module.imports.get(called) if called else None
+      if not (imp and imp[0] == 'from' and imp[2] == last):
+        return False
     cs, how = self.callees(call, fn)
     return any(c.module.name == modname and c.qualname == qualname for c, _ in cs)
 
